@@ -1,2 +1,160 @@
-(* Props/C18.v — placeholder while the theorems are being written (see Proofs/React.v). *)
-From Eino Require Import Base.Util Model.Tools Model.React.
+(* Props/C18.v — property C18: the ReAct agent alternates model and tools faithfully and stops.
+   Statements only; proofs in Proofs/React.v; model in Model/React.v.
+
+   Reading guide.  [tn] is the tools node (any function from the calls of an assistant message to
+   tool messages or an error; Model/Tools.v's in the correspondence), [rd] / [rd_nonempty] the
+   return-directly set, [modifier] the message modifier, [checker] the StreamToolCallChecker,
+   [script] the model's behaviour (its k-th reply, whole and as stream chunks, or a failure).
+   [react_spec] is the property text as a loop; [agent_run] is the superstep-level model of the
+   graph NewAgent builds.  [step_exact checker md s] = in mode [md] the consumer of the model's
+   output receives the scripted reply and the checker reports "tool calls" iff it has some. *)
+From Eino Require Import Base.Util Model.Tools Model.React Proofs.React.
+Local Open Scope string_scope.
+
+(* the graph-level loop IS the specification, for every script, tools node, return-directly
+   set, modifier and step limit — in any mode in which the checker is exact *)
+Theorem react_refines_spec :
+  forall tn rd rd_nonempty modifier checker md script max_steps input,
+    Forall (step_exact checker md) script ->
+    agent_run tn rd rd_nonempty modifier checker md max_steps script input
+    = react_spec tn rd rd_nonempty modifier script max_steps input.
+Proof. exact agent_refines_spec. Qed.
+Print Assumptions react_refines_spec.
+
+(* Generate needs no hypothesis beyond the checker being exact on a whole message ... *)
+Theorem react_generate_refines_spec :
+  forall tn rd rd_nonempty modifier checker script max_steps input,
+    (forall content calls, checker [whole_chunk content calls] = nonempty calls) ->
+    agent_run tn rd rd_nonempty modifier checker Generate max_steps script input
+    = react_spec tn rd rd_nonempty modifier script max_steps input.
+Proof. exact generate_refines_spec. Qed.
+Print Assumptions react_generate_refines_spec.
+
+(* ... which both real checkers are *)
+Theorem real_checkers_exact_on_whole :
+  forall content calls,
+    default_checker [whole_chunk content calls] = nonempty calls
+    /\ exact_checker [whole_chunk content calls] = nonempty calls.
+Proof. exact (fun content calls => conj (default_checker_whole content calls) (exact_checker_whole content calls)). Qed.
+Print Assumptions real_checkers_exact_on_whole.
+
+(* the k-th model call sees (the modifier applied to) the original messages followed by every
+   earlier assistant message and the tool results for its calls, in order *)
+Theorem kth_model_input :
+  forall tn rd rd_nonempty modifier checker md script max_steps input k h,
+    Forall (step_exact checker md) script ->
+    nth_error (t_inputs (agent_run tn rd rd_nonempty modifier checker md max_steps script input)) k = Some h ->
+    exists h', history tn script k input = Some h' /\ h = modifier h'.
+Proof. exact agent_kth_input. Qed.
+Print Assumptions kth_model_input.
+
+(* the answer is the first assistant message without tool calls, or the result of the first
+   call to a return-directly tool ([answers] is that predicate) ... *)
+Theorem returns_first_plain_or_direct :
+  forall tn rd rd_nonempty modifier checker md script max_steps input m,
+    Forall (step_exact checker md) script ->
+    t_out (agent_run tn rd rd_nonempty modifier checker md max_steps script input) = Final m ->
+    answers tn rd rd_nonempty script m.
+Proof. exact agent_final_is_answer. Qed.
+Print Assumptions returns_first_plain_or_direct.
+
+(* ... and it is returned whenever the step limit allows the steps it needs *)
+Theorem returns_answer_within_limit :
+  forall tn rd rd_nonempty modifier checker md script max_steps input m,
+    Forall (step_exact checker md) script ->
+    answers tn rd rd_nonempty script m -> steps_needed rd rd_nonempty script <= max_steps ->
+    t_out (agent_run tn rd rd_nonempty modifier checker md max_steps script input) = Final m.
+Proof. exact agent_answer_is_final. Qed.
+Print Assumptions returns_answer_within_limit.
+
+(* never more node executions (model calls + tool rounds + direct return) than the limit, and a
+   model that keeps calling tools is stopped with the step-limit error *)
+Theorem steps_within_limit :
+  forall tn rd rd_nonempty modifier checker md script max_steps input,
+    Forall (step_exact checker md) script ->
+    executions (agent_run tn rd rd_nonempty modifier checker md max_steps script input) <= max_steps.
+Proof. exact agent_steps_bounded. Qed.
+Print Assumptions steps_within_limit.
+
+Theorem stops_with_step_limit :
+  forall tn rd rd_nonempty modifier checker md script max_steps input,
+    Forall (step_exact checker md) script ->
+    Forall (looping tn rd rd_nonempty) script -> max_steps <= 2 * List.length script ->
+    t_out (agent_run tn rd rd_nonempty modifier checker md max_steps script input) = Failed EStepLimit.
+Proof. exact agent_step_limit_stops. Qed.
+Print Assumptions stops_with_step_limit.
+
+(* Generate and Stream agree — whole trace: model inputs, tool rounds, outcome — for every
+   chunking of the replies, GIVEN a checker that is exact on those chunkings (checker_exact) *)
+Theorem generate_stream_agree :
+  forall tn rd rd_nonempty modifier checker script max_steps input,
+    (forall content calls, checker [whole_chunk content calls] = nonempty calls) ->
+    Forall chunking_valid script ->
+    Forall (checker_exact checker) script ->
+    agent_run tn rd rd_nonempty modifier checker Stream max_steps script input
+    = agent_run tn rd rd_nonempty modifier checker Generate max_steps script input.
+Proof. exact generate_stream_agree_gen. Qed.
+Print Assumptions generate_stream_agree.
+
+(* a checker that reads the whole stream satisfies checker_exact on every chunking *)
+Theorem generate_stream_agree_with_exact_checker :
+  forall tn rd rd_nonempty modifier script max_steps input,
+    Forall chunking_valid script ->
+    agent_run tn rd rd_nonempty modifier exact_checker Stream max_steps script input
+    = agent_run tn rd rd_nonempty modifier exact_checker Generate max_steps script input.
+Proof. exact generate_stream_agree_exact_checker. Qed.
+Print Assumptions generate_stream_agree_with_exact_checker.
+
+(* KNOWN FINDING F-C18: the default first-chunk checker is not exact.  Witness: the model streams
+   "Let me check. " and then the tool call; the chunks do concatenate to the scripted message,
+   Generate runs the tool and answers "The answer is 42", Stream returns the tool-calling
+   message and runs no tool; with the exact checker the two runs coincide. *)
+Theorem default_checker_refuted :
+  Forall chunking_valid w_script
+  /\ t_out (w_run default_checker Generate) = Final (assistant "The answer is 42" [])
+  /\ t_out (w_run default_checker Stream) = Final (assistant "Let me check. " [w_call])
+  /\ t_rounds (w_run default_checker Generate) = [[w_call]]
+  /\ t_rounds (w_run default_checker Stream) = []
+  /\ w_run exact_checker Stream = w_run exact_checker Generate.
+Proof. exact witness_refutes_default. Qed.
+Print Assumptions default_checker_refuted.
+
+(* ---- non-vacuity ----------------------------------------------------------------------- *)
+Definition ex_tn (calls : list call) : res (list tmsg) :=
+  Ok (map (fun c => (c_name c ++ "(" ++ c_args c ++ ")", c_id c)) calls).
+Definition ex_rd (n : string) : bool := String.eqb n "final".
+Definition ex_script : list step :=
+  [ SMsg "" [mkCall "a0" "search" "x"; mkCall "a1" "calc" "y"]
+         [ mkChunk "" []; mkChunk "" [mkFrag 0 "a0" "search" ""; mkFrag 1 "a1" "calc" "y"];
+           mkChunk "" [mkFrag 0 "" "" "x"] ];
+    SMsg "thinking" [mkCall "b0" "search" "z"; mkCall "b1" "final" "w"]
+         [ mkChunk "think" [mkFrag 0 "b0" "search" "z"]; mkChunk "ing" [mkFrag 1 "b1" "final" "w"] ];
+    SMsg "unreachable" [] [mkChunk "unreachable" []] ].
+Definition ex_input : list msg := [mkMsg RUser "q" [] ""].
+
+(* the hypotheses of the theorems hold for this script with the default checker (tool calls are
+   in the first non-empty chunk) in both modes ... *)
+Example step_exact_nonvacuous :
+  Forall (step_exact default_checker Stream) ex_script /\ Forall (step_exact default_checker Generate) ex_script
+  /\ Forall chunking_valid ex_script /\ Forall (checker_exact default_checker) ex_script.
+Proof. vm_compute. repeat split; repeat constructor. Qed.
+(* ... the run is two rounds ending in a return-directly result, identically in both modes *)
+Example run_nonvacuous :
+  let t := agent_run ex_tn ex_rd true (fun h => h) default_checker Stream 13 ex_script ex_input in
+  t_out t = Final (mkMsg RTool "final(w)" [] "b1")
+  /\ List.length (t_inputs t) = 2%nat /\ List.length (t_rounds t) = 2%nat
+  /\ t = agent_run ex_tn ex_rd true (fun h => h) default_checker Generate 13 ex_script ex_input
+  /\ nth_error (t_inputs t) 1
+     = Some [mkMsg RUser "q" [] ""; assistant "" [mkCall "a0" "search" "x"; mkCall "a1" "calc" "y"];
+             mkMsg RTool "search(x)" [] "a0"; mkMsg RTool "calc(y)" [] "a1"].
+Proof. vm_compute. repeat split; reflexivity. Qed.
+(* ... and with one step less the direct-return node cannot run *)
+Example step_limit_nonvacuous :
+  t_out (agent_run ex_tn ex_rd true (fun h => h) default_checker Generate 4 ex_script ex_input) = Failed EStepLimit
+  /\ t_out (agent_run ex_tn ex_rd true (fun h => h) default_checker Generate 5 ex_script ex_input)
+     = Final (mkMsg RTool "final(w)" [] "b1").
+Proof. vm_compute. split; reflexivity. Qed.
+Example looping_nonvacuous :
+  Forall (looping ex_tn ex_rd false) (firstn 2 ex_script)
+  /\ t_out (agent_run ex_tn ex_rd false (fun h => h) exact_checker Stream 4 (firstn 2 ex_script) ex_input) = Failed EStepLimit.
+Proof. vm_compute. split; [repeat constructor; try discriminate; eexists; reflexivity | reflexivity]. Qed.
